@@ -2,6 +2,8 @@
 """Prints the sub-agent prompt for a seeded-change request (property text only, nothing from /verif)."""
 import json, sys
 pid = sys.argv[1]
+L1, L2 = (sys.argv[2], sys.argv[3]) if len(sys.argv) > 3 else ("A", "B")
+avoid = sys.argv[4] if len(sys.argv) > 4 else ""
 p = next(json.loads(l) for l in open('/verif/properties.jsonl') if json.loads(l)['id'] == pid)
 print(f"""You are helping to test a verification framework by playing the role of a developer who introduces a subtle regression.
 
@@ -13,7 +15,7 @@ Property that the library is supposed to satisfy ("{p['title']}"):
 
   It is quantified: {p['quantifier']['text']}
 
-Your task: produce TWO independent source changes (mutants A and B, using different mechanisms / different code sites) to the non-test Go files of the worktree, each of which
+Your task: produce TWO independent source changes (mutants {L1} and {L2}, using different mechanisms / different code sites) to the non-test Go files of the worktree, each of which
   1. BREAKS the property above (for at least one input / schedule / history the statement is false with the change applied),
   2. still compiles (`go build ./...` and `go vet` clean enough to build tests),
   3. still passes the repository's existing test suite, unedited (`go test -vet=off -count=1 -timeout 25m ./...` in the worktree; the suite binds loopback ports, so if a test fails in a way unrelated to your change re-run that test alone once before concluding; do not run more than one full-suite run at a time),
@@ -23,7 +25,7 @@ For each mutant also write a DEMONSTRATION: a Go test file (package memberlist, 
 Environment (offline sandbox): run Go with `export GOFLAGS=-mod=mod GOPROXY=off` in every shell call; do not set GOTOOLCHAIN or GOSUMDB. The first build takes ~40 s. There is no network.
 
 Deliverables, written to /tmp/seed/{pid}/out/ :
-  A.diff and B.diff      - `git diff` of the worktree for each mutant (source change only, WITHOUT the demo test file)
-  A_demo_test.go, B_demo_test.go - the demonstration tests
-  A.md, B.md             - 5-10 lines each: what was changed, why it breaks the property, what exactly is needed for it to manifest (input / sequence / interleaving), the commands you ran and their results (build, full suite with the change, demo with and without the change)
-Leave the worktree clean (git checkout -- . and remove the demo file) when you finish. If after a serious attempt you can only produce one qualifying mutant, deliver that one and say so. Reply with a short summary of the two mutants.""")
+  {L1}.diff and {L2}.diff      - `git diff` of the worktree for each mutant (source change only, WITHOUT the demo test file)
+  {L1}_demo_test.go, {L2}_demo_test.go - the demonstration tests
+  {L1}.md, {L2}.md             - 5-10 lines each: what was changed, why it breaks the property, what exactly is needed for it to manifest (input / sequence / interleaving), the commands you ran and their results (build, full suite with the change, demo with and without the change)
+{('Changes at these code sites have already been made by others; choose different functions and mechanisms: ' + avoid + chr(10)) if avoid else ''}Leave the worktree clean (git checkout -- . and remove the demo file) when you finish. If after a serious attempt you can only produce one qualifying mutant, deliver that one and say so. Reply with a short summary of the two mutants.""")
